@@ -169,10 +169,16 @@ func c18Run(r *core.Run) {
 		longOpts = &verify.Options{}
 		r.Probe("calls_through_one_long_lived_options_value")
 	}
+	var foreignPool *x509.CertPool
 	call := func(qq *world.Quote, vopts *validate.Options, level int, pool bool, log []byte) (*state.FirmwareLogState, core.Outcome) {
 		o := worldOpts(w, level)
 		if !pool {
-			o.TrustedRoots = world.Pool(world.NewPKI(t, "X", w.Epoch, w.A).Root)
+			// another caller's pool (a look-alike hierarchy only): one pool object for the whole run, as a service
+			// holds it, so that a retry presents the very same configuration
+			if foreignPool == nil {
+				foreignPool = world.Pool(world.NewPKI(t, "X", w.Epoch, w.A).Root)
+			}
+			o.TrustedRoots = foreignPool
 		}
 		if longOpts != nil {
 			longOpts.GetCollateral, longOpts.CheckRevocations, longOpts.Getter, longOpts.TrustedRoots, longOpts.Now = o.GetCollateral, o.CheckRevocations, o.Getter, o.TrustedRoots, o.Now
@@ -279,6 +285,21 @@ func c18Run(r *core.Run) {
 		}
 		r.Fault("gate:verification:"+vf.name, true)
 		r.State("verify-gate %s", vf.name)
+		r.EndItem()
+	}
+	// --- a verifier whose clock lags: at the given verification time the PCK leaf (or the whole chain) is not
+	// yet valid, so the quote does not pass verification at that time, by a minute or by decades
+	if r.Item("verify-gate:clock-before-chain-validity") {
+		saved := w.Times
+		nb := w.P.PCK.X.NotBefore
+		early := []time.Time{nb.Add(-time.Second), nb.Add(-4 * time.Minute), nb.Add(-36 * time.Hour), nb.AddDate(-1, 0, 0), w.A.Root.X.NotBefore.AddDate(-10, 0, 0), time.Unix(0, 0).UTC()}[t.Draw(6)]
+		for i := range w.Times {
+			w.Times[i] = early
+		}
+		gateFail("verify-gate:clock-before-chain-validity", "verification-gate:clock-before-chain-validity", fmt.Sprintf("at the given verification time (%s before the PCK leaf's notBefore) the chain is not yet valid", nb.Sub(early)), q, noPolicy, O0, true)
+		w.Times = saved
+		r.Fault("gate:verification:clock-before-chain-validity", true)
+		r.State("verify-gate clock-before-chain-validity")
 		r.EndItem()
 	}
 	// --- the repository's genuine sample quote (Intel-rooted) with its own event log, presented to a caller
